@@ -12,6 +12,7 @@ import (
 	"os"
 	"sort"
 	"sync"
+	"sync/atomic"
 	"time"
 
 	"github.com/pion/transport/v3/dpipe"
@@ -234,6 +235,12 @@ func runBridge(s *script, r *res.Result) (string, string, int) {
 	if len(rs) == 0 {
 		rs = []int{4096}
 	}
+	// pause / resume: while paused no reader is inside Read (they are kicked out with a passed deadline and wait at a
+	// gate), so nothing can be handed over: Tick must leave every message in its queue, where Drop / Reorder / Len see it
+	var paused int32
+	gateAck := make(chan int, 4)
+	var gateMu sync.Mutex
+	gate := make(chan struct{})
 	for e := 0; e < 2; e++ {
 		wg.Add(1)
 		go func(e int) {
@@ -242,6 +249,14 @@ func runBridge(s *script, r *res.Result) (string, string, int) {
 			for {
 				buf := make([]byte, rs[k%len(rs)])
 				n, err := conns[e].Read(buf)
+				if err != nil && atomic.LoadInt32(&paused) == 1 {
+					gateMu.Lock()
+					g := gate
+					gateMu.Unlock()
+					gateAck <- e
+					<-g
+					continue
+				}
 				if err != nil {
 					return
 				}
@@ -253,6 +268,11 @@ func runBridge(s *script, r *res.Result) (string, string, int) {
 		}(e)
 	}
 	fail := func(key, desc string, at int) (string, string, int) {
+		atomic.StoreInt32(&paused, 0)
+		gateMu.Lock()
+		close(gate)
+		gate = make(chan struct{})
+		gateMu.Unlock()
 		for e := 0; e < 2; e++ {
 			_ = conns[e].SetReadDeadline(time.Now().Add(-time.Second))
 		}
@@ -334,7 +354,36 @@ func runBridge(s *script, r *res.Result) (string, string, int) {
 				br.Tick()
 			}
 		case "process":
-			br.Process()
+			if atomic.LoadInt32(&paused) == 0 { // Process loops until the queues are empty: it needs readers
+				br.Process()
+			}
+		case "pause":
+			if atomic.LoadInt32(&paused) == 0 {
+				atomic.StoreInt32(&paused, 1)
+				for e := 0; e < 2; e++ {
+					_ = conns[e].SetReadDeadline(time.Now().Add(-time.Second))
+				}
+				for k := 0; k < 2; k++ {
+					select {
+					case <-gateAck:
+					case <-time.After(5 * time.Second):
+						atomic.StoreInt32(&paused, 0)
+						return fail("", "inconclusive: readers did not reach the gate", i)
+					}
+				}
+				for e := 0; e < 2; e++ {
+					_ = conns[e].SetReadDeadline(time.Time{})
+				}
+				r.Count("bridge_reader_pauses", 1)
+			}
+		case "resume":
+			if atomic.LoadInt32(&paused) == 1 {
+				atomic.StoreInt32(&paused, 0)
+				gateMu.Lock()
+				close(gate)
+				gate = make(chan struct{})
+				gateMu.Unlock()
+			}
 		}
 		// Tick/Process move queue heads to readers: the model only needs the final order, so
 		// deliveries are accounted for by comparing Len with the model queue length.
@@ -343,11 +392,21 @@ func runBridge(s *script, r *res.Result) (string, string, int) {
 			if l > len(m[dd].queue) {
 				return fail("bridge:queue-longer", fmt.Sprintf("op %d (%s): direction %d holds %d messages, model %d", i, o.K, dd, l, len(m[dd].queue)), i)
 			}
+			if l < len(m[dd].queue) && atomic.LoadInt32(&paused) == 1 {
+				return fail("bridge:delivered-without-reader", fmt.Sprintf("op %d (%s): direction %d holds %d messages, %d are queued and no reader is inside Read: a message left the queue although nobody can have received it (Drop / Reorder / Len no longer see it)", i, o.K, dd, l, len(m[dd].queue)), i)
+			}
 			for len(m[dd].queue) > l {
 				exp[dd] = append(exp[dd], m[dd].queue[0])
 				m[dd].queue = m[dd].queue[1:]
 			}
 		}
+	}
+	if atomic.LoadInt32(&paused) == 1 {
+		atomic.StoreInt32(&paused, 0)
+		gateMu.Lock()
+		close(gate)
+		gate = make(chan struct{})
+		gateMu.Unlock()
 	}
 	br.Process()
 	for dd := 0; dd < 2; dd++ {
@@ -412,6 +471,10 @@ func genBridge(rng *rand.Rand) *script {
 	default:
 		s.RSize = []int{1 + rng.Intn(2500)}
 	}
+	pausing := rng.Intn(3) == 0 // scripts in which the readers are taken out of Read for stretches of the script
+	if pausing && rng.Intn(2) == 0 {
+		s.Ops = append(s.Ops, op{K: "pause"})
+	}
 	n := 5 + rng.Intn(56)
 	type st struct {
 		q, dropN, reorderN int
@@ -455,6 +518,9 @@ func genBridge(rng *rand.Rand) *script {
 			md.filter = f
 		case k < 92:
 			s.Ops = append(s.Ops, op{K: "tick", N: 1 + rng.Intn(3)})
+			if pausing && rng.Intn(3) == 0 {
+				s.Ops = append(s.Ops, op{K: []string{"pause", "pause", "resume"}[rng.Intn(3)]})
+			}
 		case k < 95:
 			s.Ops = append(s.Ops, op{K: "process"})
 		default:
